@@ -87,11 +87,27 @@ class World:
     TICK = 1.0
     P0 = 100.0
 
-    def __init__(self, mode, monitors, tick=1.0, chunk=None):
+    def __init__(self, mode, monitors, tick=1.0, chunk=None, index=False):
         self.mode = mode  # "cont" | "free"
         self.lg = RecLogger()
-        m = Market(0, None, None, "m", logger=self.lg)
-        m.setup({"tickSize": tick, "marketPrice": self.P0})
+        self.comps = []
+        if index:
+            # the market under test is an IndexMarket over two plain component markets (op XC stops / restarts
+            # the first component): everything a Market promises about its book holds for an IndexMarket too
+            import types
+            from pams.index_market import IndexMarket
+            for i, sh in ((1, 1), (2, 2)):
+                c = Market(i, None, None, "c%d" % (i - 1))
+                c.setup({"tickSize": tick, "marketPrice": self.P0, "outstandingShares": sh})
+                c._update_time(self.P0)
+                c._is_running = True
+                self.comps.append(c)
+            sim = types.SimpleNamespace(name2market={c.name: c for c in self.comps})
+            m = IndexMarket(0, None, sim, "m", logger=self.lg)
+            m.setup({"tickSize": tick, "marketPrice": self.P0, "markets": [c.name for c in self.comps]})
+        else:
+            m = Market(0, None, None, "m", logger=self.lg)
+            m.setup({"tickSize": tick, "marketPrice": self.P0})
         if chunk:
             m.chunk_size = chunk
         m._update_time(self.P0)
@@ -253,6 +269,8 @@ class World:
             self._snap(sub)
             n0 = len(self.lg.got)
             try:
+                for c in self.comps:
+                    c._update_time(self.P0)
                 m._update_time(self.P0)
             except Exception as e:  # noqa
                 sub.exc = e
@@ -266,6 +284,13 @@ class World:
             sub = Sub("flip", op)
             self._snap(sub)
             m._is_running = not m._is_running
+            self._emit(sub, len(self.lg.got))
+        elif k == "XC":
+            if not self.comps:
+                return False
+            sub = Sub("flip_component", op)
+            self._snap(sub)
+            self.comps[0]._is_running = not self.comps[0]._is_running
             self._emit(sub, len(self.lg.got))
         elif k == "X":
             if self.mode != "free" or not m._is_running:
@@ -344,7 +369,7 @@ class World:
                 at(m._executed_volumes), at(m._executed_total_prices), at(m._n_buy_orders),
                 at(m._n_sell_orders), orders, exp(m.buy_order_book), exp(m.sell_order_book),
                 heap_ok(b), heap_ok(a), m.buy_order_book.time, m.sell_order_book.time,
-                tuple(sorted(self.dead_kinds())))
+                tuple(sorted(self.dead_kinds())), tuple(c._is_running for c in self.comps))
         extra = tuple(mon.canon_extra(self) for mon in self.monitors)
         return (core, extra)
 
@@ -445,6 +470,9 @@ SEED_KW = {
     # decimal tick sizes (k*tick is not exactly representable): empty books on ticks 0.1 and 1e-5
     "tick01": (dict(tick=0.1), []),
     "tick1e5": (dict(tick=0.00001), []),
+    # the market under test is an IndexMarket (two components; op XC stops / restarts a component)
+    "index": (dict(index=True), [L(B, 99, 1), L(S, 101, 1)]),
+    "index_component_stopped": (dict(index=True), [("XC",), L(B, 99, 1), L(S, 101, 2, 2)]),
 }
 
 
